@@ -48,15 +48,6 @@ def reuse_case(idx, payload):
     except Exception as e:  # noqa
         res["err"] = classify_exc(e)
         return res
-    # the same history on the model's wrapper-object state machine (Model/PybindState.lean, theorem C14_reuse_history)
-    st, ans = fw.worker_driver().call("pyhist", "\x1e".join(texts), streams.TPL_MIN, "m", "\x1f", "1" if boost else "0", "")
-    model_outs = ans.split("\x1e") if st == "ok" else None
-    if model_outs != ["ok:" + o for o in outs]:
-        k = next((j for j in range(len(outs)) if model_outs is None or j >= len(model_outs) or model_outs[j] != "ok:" + outs[j]), 0)
-        res["bad"] = dict(kind="model", what="model of a re-used wrapper object differs from the implementation at call %d of the history" % k,
-                          input=texts[k], earlier_inputs=texts[:k],
-                          **(streams.first_diff(outs[k], model_outs[k][3:]) if model_outs and k < len(model_outs) else dict(got=str(ans)[:200])))
-        return res
     for i, (t, o) in enumerate(zip(texts, outs)):
         fresh = impl_pybind(t, streams.TPL_MIN, "m", [''], boost, [], None)
         again = impl_pybind(t, streams.TPL_MIN, "m", [''], boost, [], None)
@@ -67,6 +58,15 @@ def reuse_case(idx, payload):
             res["bad"] = dict(what="output for an input depends on the files wrapped earlier by the same wrapper object",
                               input=t, earlier_inputs=texts[:i], **streams.first_diff(fresh[1], o))
             return res
+    # the same history on the model's wrapper-object state machine (Model/PybindState.lean, theorem C14_reuse_history)
+    st, ans = fw.worker_driver().call("pyhist", "\x1e".join(texts), streams.TPL_MIN, "m", "\x1f", "1" if boost else "0", "")
+    model_outs = ans.split("\x1e") if st == "ok" else None
+    if model_outs != ["ok:" + o for o in outs]:
+        k = next((j for j in range(len(outs)) if model_outs is None or j >= len(model_outs) or model_outs[j] != "ok:" + outs[j]), 0)
+        res["bad"] = dict(kind="model", what="model of a re-used wrapper object differs from the implementation at call %d of the history" % k,
+                          input=texts[k], earlier_inputs=texts[:k],
+                          **(streams.first_diff(outs[k], model_outs[k][3:]) if model_outs and k < len(model_outs) else dict(got=str(ans)[:200])))
+        return res
     return res
 
 
